@@ -106,7 +106,7 @@ def campaign(res, broken, tier, prop, scenario, sources, param_gen, validate, si
 
 def replay(scenario, sources, path, validate=None):
     rep = json.load(open(path))
-    if "seed" not in rep:
+    if "mode" not in rep or "params" not in rep:
         print("no concrete failing input in this replay; broken obligations:")
         print(json.dumps(rep.get("broken", rep), indent=1)[:3000])
         return 1
